@@ -4,12 +4,13 @@ from circuit_common import *
 PROP = "C04"
 RULE = ("sequential histories over {success, failure, slow success, slow failure, wait, force_open, force_closed, reset} with a custom classifier, "
         "both window types, window sizes 1..5, thresholds {0,1/10,1/3,1/2,2/3,1}, minimum below/equal/above the window, permitted 1..3, slow detection on/off; "
-        "plus long histories without a transition (the window must slide); non-trivial = the breaker left Closed at least once")
+        "plus long histories without a transition (the window must slide) and histories whose failure rate EQUALS a threshold num/den for which binary64 arithmetic is fragile; non-trivial = the breaker left Closed at least once")
 
 
 def generate(rng, tier):
     k = 1 if tier == "quick" else 15
-    return [random_seq_history(rng) for _ in range(1500 * k)] + [long_no_transition(rng) for _ in range(30 * k)]
+    return ([random_seq_history(rng) for _ in range(1500 * k)] + [long_no_transition(rng) for _ in range(30 * k)] +
+            rate_boundary_scripts(rng, 45 if tier == 'quick' else 100))
 
 
 def monitor(s, t):
